@@ -316,6 +316,8 @@ hq!(c20_chain_split_off_s120_at1, { contract_split_off([1, 2, 0], 1) });
 hq!(c20_chain_split_off_s120_at2, { contract_split_off([1, 2, 0], 2) });
 hq!(c20_chain_split_off_s120_at3, { contract_split_off([1, 2, 0], 3) });
 hq!(c20_chain_split_off_s120_at4_oob, { contract_split_off([1, 2, 0], 4) });
+// a split point strictly inside a chunk that is NOT the last one (the case a seeded change needed)
+hq!(c20_chain_split_off_s210_at1, { contract_split_off([2, 1, 0], 1) });
 hq!(c20_chain_split_to_s120_at2, { contract_split_to([1, 2, 0], 2) });
 hq!(c20_chain_advance_s120_c0, { contract_advance([1, 2, 0], 0) });
 hq!(c20_chain_advance_s120_c2, { contract_advance([1, 2, 0], 2) });
